@@ -132,3 +132,22 @@ Theorem C02_open_of_a_truncated_image_before_the_fix_refuted :
 Proof. first [exact (@parse_truncation_refuted_old) | apply (@parse_truncation_refuted_old) | intros; eapply (@parse_truncation_refuted_old); eassumption]. Qed.
 
 End ParseTruncStatements.
+
+(* ---- opening a Rock Ridge image: Model/ParseRR.v (RockRidge.parse on every record's System Use area and continuation area,
+   the continuation-block table rebuilt by track_rr_ce_entry, the version inference -- the repaired code) composed with the
+   writer model Model/MasterRR.v.  For EVERY edit history whose sibling identifiers are distinct: the opened object is the
+   graph the writer had, with the writer's Rock Ridge version; edits after reopen are NOT byte-identical to edits on the
+   original (continuation blocks are re-numbered in walk order: prr_reopen_space_refuted in Proofs/ParseRRRefuted.v) *)
+From PV.Model Require AccountRR MasterRR ParseCore ParseRR ParseRRSpec.
+From PV.Proofs Require ParseRRProofs.
+Section ParseRRStatements.
+Import PV.Model.AccountRR PV.Model.MasterRR PV.Model.ParseRR PV.Model.ParseRRSpec.
+Theorem C02_open_of_a_rock_ridge_image_gives_the_writers_graph : forall (v : RREntries.rrv) (ops : list rop) (dt : list Z) (img : image),
+  v <> RREntries.V_unset -> length dt = 7%nat -> let s := rr_run (rr_init v) ops in
+  mrr_sizes_ok s = true -> prr_tree_ok s = true -> master_rr dt s = Some img ->
+  parse_rr (prr_fuel s) img (mrr_root_extent s) (mrr_root_len s) = ParseCore.POk (graph_of dt s).
+Proof. exact ParseRRProofs.parse_rr_master_run. Qed.
+
+Theorem C02_open_recognizes_the_rock_ridge_version : forall (dt : list Z) (s : rstate), mrr_wf dt s = true -> g_ver (graph_of dt s) = r_ver s.
+Proof. exact ParseRRProofs.parse_rr_version. Qed.
+End ParseRRStatements.
